@@ -54,6 +54,7 @@ case "${1:-}" in
     build_b
     python3 gen_gated.py || exit 3
     (cd h && go1.26.8 test -c -vet=off -overlay ../bin/ov_gate.json -o ../bin/verifb_gated.test ./tb) || exit 3
+    (cd h && go1.26.8 test -race -c -vet=off -o ../bin/verifb_race.test ./tb) || exit 3
     tier=quick
     printf '{"Replace":{"/repo/client/zz_verif_c14_test.go":"%s/overlay/c14_test.go.txt"}}' "$VERIF_ROOT" > bin/ov_c14.json
     (cd h && go test -c -overlay ../bin/ov_c14.json -vet=off -o ../bin/c14.test github.com/simpleiot/simpleiot/client) || exit 3
@@ -89,7 +90,13 @@ case "$id" in
     python3 gen_gated.py || exit 3
     cp /repo/go.sum h/go.sum 2>/dev/null
     (cd h && go1.26.8 test -c -vet=off -overlay ../bin/ov_gate.json -o ../bin/verifb_gated.test ./tb) || { echo "HARNESS-ERROR: gated tier-B build failed"; exit 3; }
-    VERIF_TIER="$tier" exec bin/verifb_gated.test -test.run '^TestC20$' -test.timeout 0;;
+    # free-running -race pass of the same thread bodies (no gates): the "no data race" clause
+    (cd h && go1.26.8 test -race -c -vet=off -o ../bin/verifb_race.test ./tb) || { echo "HARNESS-ERROR: -race build failed"; exit 3; }
+    rm -rf bin/race && mkdir -p bin/race
+    GORACE="halt_on_error=0 exitcode=0 log_path=$VERIF_ROOT/bin/race/race_report" VERIF_RACE_OUT="$VERIF_ROOT/bin/race/race_out.json" VERIF_TIER="$tier" \
+      bin/verifb_race.test -test.run '^TestC20Race$' -test.timeout 30m > bin/race/log.txt 2>&1
+    [ -s bin/race/race_out.json ] || { echo "HARNESS-ERROR: race pass did not finish"; tail -5 bin/race/log.txt; exit 3; }
+    VERIF_RACE_DIR="$VERIF_ROOT/bin/race" VERIF_TIER="$tier" exec bin/verifb_gated.test -test.run '^TestC20$' -test.timeout 0;;
   C04)
     build_s
     (cd h && go build -o ../bin/c04writer ./cmd/c04writer) || { echo "HARNESS-ERROR: c04writer build failed"; exit 3; }
